@@ -190,39 +190,39 @@ Proof.
         destruct Hm as [(_ & body & Er & Hb)|(Eq & _)];
           [|vm_compute in Eq; discriminate Eq].
         repeat split; try assumption.
-        cbn [md mode_ok rev]. exists body. rewrite Er. now split.
+        cbn [md mode_ok rev]. exists body. try unfold char in *; rewrite Er. now split.
       * destruct Hm as [(Eq & _)|(Eq & body & Er & Hb)];
           [subst q; rewrite N.eqb_refl in Hq; discriminate Hq|].
         subst q. apply inv_emit; try assumption.
-        cbn [wf rev]. rewrite Er. apply leaf_ok_qsym.
+        cbn [wf rev]. try unfold char in *; rewrite Er. apply leaf_ok_qsym.
         now apply (qsym_ok_intro body).
     + repeat split; try assumption.
       cbn [md mode_ok rev].
       destruct Hm as [(Eq & body & Er & Hb)|(Eq & body & Er & Hb)]; subst q.
-      * left. split; [reflexivity|]. exists (body ++ [c]). rewrite Er. split; [reflexivity|].
+      * left. split; [reflexivity|]. exists (body ++ [c]). try unfold char in *; rewrite Er. split; [reflexivity|].
         apply strbody_ok_app; [assumption|]. cbn [strbody_ok]. now rewrite Hcq.
-      * right. split; [reflexivity|]. exists (body ++ [c]). rewrite Er. split; [reflexivity|].
+      * right. split; [reflexivity|]. exists (body ++ [c]). try unfold char in *; rewrite Er. split; [reflexivity|].
         rewrite forallb_app, Hb. cbn [forallb]. now rewrite Hcq.
   - cbn [mode_ok] in Hm. destruct Hm as (body & Er & Hb).
     destruct (N.eqb c cDQ) eqn:Hc.
     + apply N.eqb_eq in Hc. subst c.
       repeat split; try assumption.
       cbn [md mode_ok rev]. left. split; [reflexivity|].
-      exists (body ++ [cDQ; cDQ]). rewrite Er. split.
+      exists (body ++ [cDQ; cDQ]). try unfold char in *; rewrite Er. split.
       * cbn [app]. now rewrite <- app_assoc.
       * apply strbody_ok_app; [assumption|reflexivity].
     + apply inv_step_top; [|apply md_emit].
       apply inv_emit; try assumption.
-      cbn [wf]. rewrite Er. apply leaf_ok_strlit.
+      cbn [wf]. try unfold char in *; rewrite Er. apply leaf_ok_strlit.
       now apply (strlit_ok_intro body).
   - cbn [mode_ok] in Hm. destruct Hm as (body & Er & Hb).
     destruct (N.eqb c cLF) eqn:Hc.
     + apply N.eqb_eq in Hc. subst c.
       apply inv_emit; try assumption.
-      cbn [wf rev]. rewrite Er. apply leaf_ok_comment.
+      cbn [wf rev]. try unfold char in *; rewrite Er. apply leaf_ok_comment.
       now apply (comment_ok_intro body).
     + repeat split; try assumption.
-      cbn [md mode_ok rev]. exists (body ++ [c]). rewrite Er. split; [reflexivity|].
+      cbn [md mode_ok rev]. exists (body ++ [c]). try unfold char in *; rewrite Er. split; [reflexivity|].
       rewrite forallb_app, Hb. cbn [forallb]. now rewrite Hc.
 Qed.
 
@@ -275,12 +275,15 @@ Proof.
     now apply wf_last_rev_out. }
   destruct m as [|acc|q acc|acc|acc]; unfold finish; cbn [md out].
   - assumption.
-  - apply Hemit. cbn [wf]. cbn [mode_ok] in Hm. now rewrite (leaf_ok_atom _ Hm).
+  - apply Hemit. cbn [wf]. cbn [mode_ok] in Hm. apply orb_true_iff. left.
+    now apply leaf_ok_atom.
   - assumption.
   - apply Hemit. cbn [wf]. cbn [mode_ok] in Hm. destruct Hm as (body & Er & Hb).
-    rewrite Er. now rewrite (leaf_ok_strlit _ (strlit_ok_intro body Hb)).
+    try unfold char in *; rewrite Er. apply orb_true_iff. left.
+    now apply leaf_ok_strlit, (strlit_ok_intro body).
   - apply Hemit. cbn [mode_ok] in Hm. destruct Hm as (body & Er & Hb).
-    rewrite Er. cbn [ucomment]. rewrite N.eqb_refl, Hb. now rewrite orb_true_r.
+    try unfold char in *; rewrite Er. apply orb_true_iff. right.
+    cbn [ucomment]. apply andb_true_intro. split; [apply N.eqb_refl|exact Hb].
 Qed.
 
 Theorem parser_range_proof : forall t, wf_last (parse t) = true.
@@ -293,7 +296,7 @@ Proof.
   destruct s as [|c body]; [discriminate|]. cbn [ucomment wf].
   intros H. apply andb_true_iff in H. destruct H as [Hc Hb].
   apply N.eqb_eq in Hc. subst c.
-  destruct (leaf_ok (cSEMI :: body)) eqn:E; [|reflexivity]. exfalso.
+  apply not_true_is_false. intros E.
   apply leaf_ok_cases in E. destruct E as [E|[E|[E|E]]].
   - apply atom_inv in E. destruct E as (a & tl & E & Ha & _).
     injection E as <- _. vm_compute in Ha. discriminate Ha.
